@@ -274,6 +274,17 @@ class Engine(object):
             self.oblig(st, f"zerodiv@{line}", y != 0, line)
             st.assume(y != 0)
         x, y = smt.som(x), smt.som(y)
+        if z3.is_app_of(x, z3.Z3_OP_ITE) and cy is None:
+            c = x.arg(0)
+            q1, r1 = self.int_divmod(st, x.arg(1), y, line)
+            q2, r2 = self.int_divmod(st, x.arg(2), y, line)
+            return z3.If(c, q1, q2), z3.If(c, r1, r2)
+        fq = smt.factor_out(x, y)
+        if fq is not None:
+            # x is syntactically (fq * y): exact division (y != 0 established above or guarded)
+            q0 = smt.fresh("q")
+            st.assume(z3.Implies(y != 0, q0 == fq))
+            return q0, z3.If(y != 0, z3.IntVal(0), smt.fresh("r"))
         key = (x.get_id(), y.get_id())
         memo = self.__dict__.setdefault("_divmemo", {})
         if key in memo:
@@ -307,6 +318,20 @@ class Engine(object):
         c = smt.conc_real(x)
         if c is not None:
             return z3.IntVal(int(c))
+        xs_ = smt.simp(x)
+        # int(I * p/q) with an integer term I: exact integer arithmetic (truncation toward zero)
+        num = None
+        if z3.is_mul(xs_) and xs_.num_args() == 2:
+            a0, a1 = xs_.arg(0), xs_.arg(1)
+            for cst, oth in ((a0, a1), (a1, a0)):
+                if z3.is_rational_value(cst) and z3.is_app_of(oth, z3.Z3_OP_TO_REAL):
+                    num = (cst.numerator_as_long(), cst.denominator_as_long(), oth.arg(0))
+        elif z3.is_app_of(xs_, z3.Z3_OP_TO_REAL):
+            return xs_.arg(0)
+        if num is not None:
+            p_, q_, I = num
+            t = smt.som(I * p_)
+            return z3.If(t >= 0, t / q_, -((-t) / q_))
         k = smt.fresh("tr")
         kr = z3.ToReal(k)
         st.assume(z3.If(x >= 0, z3.And(kr <= x, x < kr + 1), z3.And(kr - 1 < x, x <= kr)))
